@@ -219,9 +219,10 @@ def enum_pencils(tier, seed):
     for fi in range(0, len(frames()), 2 if tier == "quick" else 1):
         yield ("tangent", fi)
     yield ("circles", 0)
+    yield ("high-contact", 0)
 
 
-def judge_common(ctx, G, c1, c2, A1, A2, base, inputs, tagbase, max_pts=4, double=None):
+def judge_common(ctx, G, c1, c2, A1, A2, base, inputs, tagbase, max_pts=4, double=None, tol=1e-6):
     r, e = ctx.call(c1.intersect, c2)
     ctx.trace()
     d1 = "degenerate" if X.idet4(A1.tolist()) == 0 else "nondegenerate"
@@ -236,11 +237,11 @@ def judge_common(ctx, G, c1, c2, A1, A2, base, inputs, tagbase, max_pts=4, doubl
         ctx.fail(f"{tag}:too-many-points", "intersect", inputs, base, pts)
         return False
     for p in pts:
-        if not (on_quadric(A1.astype(float), p, 1e-6) and on_quadric(A2.astype(float), p, 1e-6)):
+        if not (on_quadric(A1.astype(float), p, tol) and on_quadric(A2.astype(float), p, tol)):
             ctx.fail(f"{tag}:point-not-common", "intersect", inputs, base, pts)
             return False
     for b in base:
-        if not any(proj_eq(p, np.array(b, dtype=float), 1e-5) for p in pts):
+        if not any(proj_eq(p, np.array(b, dtype=float), 10 * tol) for p in pts):
             ctx.fail(f"{tag}:common-point-missing", "intersect", {**inputs, "missing": b}, base, pts)
             return False
     return True
@@ -285,6 +286,22 @@ def case_pencils(ctx, cfg):
             ctx.state((kind, fi, str(l1), str(l2)))
             if not judge_common(ctx, G, G.Conic(A1.astype(float)), G.Conic(A2.astype(float)), A1, A2, [a, b, c], {"a_double": a, "b": b, "c": c, "lambda": str(l1), "mu": str(l2), "self": A1, "other": A2}, "tangent-pencil"):
                 return
+    elif kind == "high-contact":
+        # pairs with a single common point of multiplicity four (the cubic resolvent has a triple root), and of multiplicity three
+        par = np.array([[2, 0, 0], [0, 0, -1], [0, -1, 0]], dtype=np.int64)  # x^2 = y
+        circ = np.array([[1, 0, 0], [0, 1, 0], [0, 0, -1]], dtype=np.int64)  # x^2 + y^2 = 1
+        dbl = np.array([[1, 0, -1], [0, 0, 0], [-1, 0, 1]], dtype=np.int64)  # (x - 1)^2
+        pairs = [
+            (par, np.array([[2, 0, 0], [0, -2, -1], [0, -1, 0]], dtype=np.int64), [(0, 0, 1)], "fourfold: x^2=y and x^2-y^2=y"),
+            (circ, circ + 2 * dbl, [(1, 0, 1)], "fourfold: unit circle and circle + 2 (x-1)^2"),
+            (circ, circ - 3 * dbl, [(1, 0, 1)], "fourfold: unit circle and circle - 3 (x-1)^2"),
+            (par, par + np.array([[0, 0, 0], [0, 2, 0], [0, 0, 0]], dtype=np.int64), [(0, 0, 1)], "fourfold: x^2=y and x^2+y^2=y"),
+        ]
+        for A1, A2, base, what in pairs:
+            for x, y, tag in ((A1, A2, "ab"), (A2, A1, "ba")):
+                ctx.state((kind, what, tag))
+                if not judge_common(ctx, G, G.Conic(x.astype(float)), G.Conic(y.astype(float)), x, y, base, {"pair": what, "order": tag, "self": x, "other": y}, "high-contact", tol=1e-3):  # a fourfold point is only determined to eps**(1/4)
+                    return
     else:
         # lattice circles: (centre, r^2); common points computed exactly where rational, complex points I, J always common
         circles = [((0, 0), 25), ((6, 0), 25), ((0, 0), 1), ((3, 0), 4), ((0, 0), 4), ((5, 5), 25), ((8, 0), 9)]
